@@ -1,4 +1,5 @@
 import QuantemModel.Model.SerializeSpec
+import QuantemModel.Lemmas.SerializeCanon
 /-!
 C01 — serializer round-trip fidelity, for the executable model of serialize.py
 (Model/Serialize.lean).  Only property theorems and non-vacuity examples live here.
@@ -274,6 +275,17 @@ theorem attr_names_exact (cls : String) (attrs : List (String × Val)) :
     funext x; rfl
   rw [this, h2] at h1
   exact h1
+
+/-- **fixed point**: saving the loaded object again and reloading it yields the very same
+graph (`canon` is idempotent and preserves well-formedness, `Lemmas/SerializeCanon.lean`) -/
+theorem roundtrip_fixed (cls : String) (attrs : List (String × Val)) (h : wfA (.obj cls attrs) = true) :
+    ∃ w, load {} (save {} (.obj cls attrs)) = .ok w ∧ load {} (save {} w) = .ok w := by
+  refine ⟨canon (.obj cls attrs), roundtrip cls attrs h, ?_⟩
+  obtain ⟨hid, hwf⟩ := canon_stable (.obj cls attrs)
+  have hw := hwf h
+  have hc : canon (.obj cls attrs) = .obj cls (reorder (canonKvs attrs)) := by simp [canon]
+  rw [hc] at hid hw ⊢
+  rw [roundtrip cls _ hw, hid]
 
 /-! ### non-vacuity: a depth-4 graph with every value kind is well-formed and round-trips -/
 
